@@ -9,6 +9,11 @@ hooked), observed after every call through `current_waypoint` / `is_reversed` / 
 commands a recording `IProvider` received.  Positions are float bit patterns; generated coordinates are
 multiples of 1/8 below 2^7 and tolerances are dyadic, so every squared distance and the comparison with
 `tolerance ** 2` is exact in IEEE doubles (boundary cases are decided exactly, not within an epsilon).
+
+A fleet case (`"members": [{loop, tol, speed}…]`, ops `[who, op]`) is the same with several plugins alive in
+the same process, each on its own protocol and provider, their calls interleaved (the nodes of one simulation).
+The property speaks about each plugin: every member must behave as its own calls alone dictate, and a call
+on one member changes nothing on, and issues no command for, another.
 """
 import functools
 import gc
@@ -100,7 +105,38 @@ def _gc_hygiene():
         gc.freeze()
 
 
+def _call(plugin, proto, op, mission_of=None):
+    """one public call; how it ended"""
+    try:
+        name = op[0]
+        if name == "start":
+            plugin.start_mission(mission_of(op[1]) if mission_of else [bitsv3(p) for p in op[1]])
+        elif name == "stop":
+            plugin.stop_mission()
+        elif name == "setWaypoint":
+            plugin.set_current_waypoint(op[1])
+        elif name == "setReversed":
+            plugin.set_reversed(op[1])
+        elif name == "telemetry":
+            proto.handle_telemetry(Telemetry(current_position=bitsv3(op[1])))
+        else:
+            raise ValueError(f"unknown op {name}")
+    except MissionMobilityPluginException:
+        return "refused"
+    except Exception as e:          # no counterpart in the property: recorded, judged by the oracle
+        return "crash:" + type(e).__name__
+    return "ok"
+
+
+def _status(plugin):
+    wp = plugin.current_waypoint
+    return {"wp": wp if (wp is None or isinstance(wp, int)) else repr(wp),
+            "reversed": plugin.is_reversed, "idle": plugin.is_idle}
+
+
 def run_impl(case):
+    if "members" in case:
+        return run_impl_fleet(case)
     _gc_hygiene()
     prov = _RecProvider()
     proto = _RecProtocol.instantiate(prov)
@@ -111,32 +147,68 @@ def run_impl(case):
     try:
         for op in case["ops"]:
             n0 = len(prov.cmds)
-            out = "ok"
-            try:
-                name = op[0]
-                if name == "start":
-                    plugin.start_mission([bitsv3(p) for p in op[1]])
-                elif name == "stop":
-                    plugin.stop_mission()
-                elif name == "setWaypoint":
-                    plugin.set_current_waypoint(op[1])
-                elif name == "setReversed":
-                    plugin.set_reversed(op[1])
-                elif name == "telemetry":
-                    proto.handle_telemetry(Telemetry(current_position=bitsv3(op[1])))
-                else:
-                    raise ValueError(f"unknown op {name}")
-            except MissionMobilityPluginException:
-                out = "refused"
-            except Exception as e:          # no counterpart in the property: recorded, judged by the oracle
-                out = "crash:" + type(e).__name__
-            wp = plugin.current_waypoint
-            results.append({"out": out, "wp": wp if (wp is None or isinstance(wp, int)) else repr(wp),
-                            "reversed": plugin.is_reversed, "idle": plugin.is_idle, "cmds": prov.cmds[n0:]})
+            out = _call(plugin, proto, op)
+            results.append({"out": out, **_status(plugin), "cmds": prov.cmds[n0:]})
     finally:
         # harness hygiene only: the dispatcher keeps every wrapped protocol alive in a module-level dict
         getattr(_dispatcher, "_protocol_wrappers", {}).pop(proto, None)
     return {"results": results, "passed_on": getattr(proto, "seen", 0)}
+
+
+def run_impl_fleet(case):
+    """several plugins alive at the same time, one per protocol/provider (the nodes of one simulation), their
+    calls interleaved.  With `share` the members that were given equal configurations get the same
+    configuration object (the constructor's default argument when it equals the documented defaults) and
+    equal missions are the same list object - one `mission = [...]` / one config handed to several nodes."""
+    _gc_hygiene()
+    share = bool(case.get("share"))
+    cfgs, lists = {}, {}
+    default = MissionMobilityConfiguration()
+
+    def mission_of(bits):
+        if not share:
+            return [bitsv3(p) for p in bits]
+        k = json.dumps(bits)
+        if k not in lists:
+            lists[k] = [bitsv3(p) for p in bits]
+        return lists[k]
+
+    provs, protos, plugins = [], [], []
+    try:
+        for m in case["members"]:
+            prov = _RecProvider()
+            proto = _RecProtocol.instantiate(prov)
+            provs.append(prov)
+            protos.append(proto)
+            k = (m["loop"], m["tol"], m["speed"])
+            cfg = cfgs.get(k) if share else None
+            if cfg is None:
+                cfg = MissionMobilityConfiguration(speed=bitsf(m["speed"]), loop_mission=LoopMission[m["loop"]],
+                                                   tolerance=bitsf(m["tol"]))
+                cfgs[k] = cfg
+            if share and cfg == default:
+                plugins.append(MissionMobilityPlugin(proto))
+            else:
+                plugins.append(MissionMobilityPlugin(proto, cfg))
+        status = [_status(p) for p in plugins]
+        results = []
+        for who, op in case["ops"]:
+            n0 = [len(p.cmds) for p in provs]
+            out = _call(plugins[who], protos[who], op, mission_of)
+            r = {"out": out, **_status(plugins[who]), "cmds": provs[who].cmds[n0[who]:]}
+            others = []
+            for j, p in enumerate(plugins):
+                st = _status(p)
+                if j != who and (st != status[j] or len(provs[j].cmds) != n0[j]):
+                    others.append({"member": j, "before": status[j], "after": st, "cmds": provs[j].cmds[n0[j]:]})
+                status[j] = st
+            if others:
+                r["others"] = others
+            results.append(r)
+    finally:
+        for proto in protos:
+            getattr(_dispatcher, "_protocol_wrappers", {}).pop(proto, None)
+    return {"results": results, "passed_on": [getattr(p, "seen", 0) for p in protos]}
 
 
 # ------------------------------------------------------------------------------------------------
@@ -214,21 +286,55 @@ class Spec:
         raise ValueError(name)
 
 
+def plain_ops(case):
+    return [o[1] for o in case["ops"]] if "members" in case else case["ops"]
+
+
 def in_domain(case):
-    return all(op[0] != "start" or len(op[1]) > 0 for op in case["ops"])
+    return all(op[0] != "start" or len(op[1]) > 0 for op in plain_ops(case))
 
 
-def oracle(case, impl):
+def member_view(case, impl, i):
+    """what member i of a fleet case was asked and showed: a single-plugin case, its observations, and the
+    positions of its calls in the fleet's history"""
+    idx = [k for k, o in enumerate(case["ops"]) if o[0] == i]
+    sub = dict(case["members"][i], kind="mission", ops=[case["ops"][k][1] for k in idx])
+    return sub, {"results": [impl["results"][k] for k in idx]}, idx
+
+
+def oracle_fleet(case, impl):
+    """C16 for every member of the fleet on its own calls and observations (the property is about each plugin:
+    ITS current waypoint, the last command IT issued, ITS visiting order), and between calls of its own a
+    member must not move: a call on another plugin is no request to this one and no waypoint of it was reached."""
+    fails = []
+    for i in range(len(case["members"])):
+        sub, subimpl, idx = member_view(case, impl, i)
+        fails += oracle(sub, subimpl, idx=idx, tag=f" on plugin #{i}:")
+    for k, ((who, op), r) in enumerate(zip(case["ops"], impl["results"])):
+        for o in r.get("others", []):
+            fails.append(("C16:other-instance", f"op #{k} {op_text(op)} on plugin #{who} changed plugin #{o['member']}: "
+                          f"{o['before']} -> {o['after']}, commands issued there {cmds_text(o['cmds'])}"))
+    seen, out = set(), []
+    for f in fails:
+        if f[0] not in seen:
+            seen.add(f[0])
+            out.append(f)
+    return out
+
+
+def oracle(case, impl, idx=None, tag=""):
     """C16 evaluated on the implementation's observations.  Signatures, most specific first."""
     if not in_domain(case):
         return []           # empty missions are outside the property's quantifier (domain note in DESIGN.md)
+    if "members" in case:
+        return oracle_fleet(case, impl)
     fails = []
     spec = Spec(case["loop"], case["tol"])
     speed = case["speed"]
     last_goto = None
     prev = {"wp": None, "reversed": False, "idle": True}
     for k, (op, r) in enumerate(zip(case["ops"], impl["results"])):
-        where = _Where(k, op)
+        where = _Where(idx[k] if idx is not None else k, op, tag)
         was_active, m0, wp0, rev0 = spec.m is not None, spec.m, spec.wp, spec.rev
         want, stepped = spec.apply(op)
         for c in r["cmds"]:
@@ -305,11 +411,11 @@ def oracle(case, impl):
 class _Where:
     """'op #k <call>' rendered only when a message is actually built"""
 
-    def __init__(self, k, op):
-        self.k, self.op = k, op
+    def __init__(self, k, op, tag=""):
+        self.k, self.op, self.tag = k, op, tag
 
     def __format__(self, spec):
-        return f"op #{self.k} {op_text(self.op)}"
+        return f"op #{self.k}{self.tag} {op_text(self.op)}"
 
 
 def pos_text(p):
@@ -332,8 +438,39 @@ def op_text(op):
     return "stop_mission()"
 
 
+def fleet_events(case, impl):
+    """concurrent = a member steps (reached waypoint or direction switch) or is set to a waypoint index >= 1 while
+    another member has a mission in progress whose waypoint at that index is a different position"""
+    k = len(case["members"])
+    mission, wp = [None] * k, [None] * k
+    ev = {"concurrent": 0, "concurrent_members": set(), "both_active_calls": 0, "same_mission_active": 0}
+    for (who, op), r in zip(case["ops"], impl["results"]):
+        if op[0] == "start":
+            mission[who] = op[1]
+        wp[who] = r["wp"]
+        active = [j for j in range(k) if mission[j] and isinstance(wp[j], int)]
+        if who in active and len(active) >= 2:
+            ev["both_active_calls"] += 1
+            if any(j != who and mission[j] == mission[who] for j in active):
+                ev["same_mission_active"] += 1
+            i = wp[who]
+            if op[0] != "start" and i >= 1 and any(c[0] == "goto" for c in r["cmds"]) and i < len(mission[who]) and any(
+                    j != who and i < len(mission[j]) and mission[j][i] != mission[who][i] for j in active):
+                ev["concurrent"] += 1
+                ev["concurrent_members"].add(who)
+    ev["concurrent_members"] = len(ev["concurrent_members"])
+    return ev
+
+
 def events(case, impl):
     """what happened, read off the implementation's observations: bounces, wraps, completions, refusals"""
+    if "members" in case:
+        tot = {}
+        for i in range(len(case["members"])):
+            sub, subimpl, _ = member_view(case, impl, i)
+            for key, v in events(sub, subimpl).items():
+                tot[key] = tot.get(key, 0) + v
+        return tot
     ev = {"top": 0, "bottom": 0, "wrap": 0, "finished": 0, "refused": 0, "reached": 0, "unreached": 0,
           "late": 0}
     prev = (None, False)
@@ -426,6 +563,31 @@ def telemetry_pos(r, spec, tol, how):
     return shifted(tgt, (r.choice([-1, 1]) * (3 * tol + r.randint(1, 80)), r.randint(-8, 8), 0))     # far
 
 
+def next_op(r, spec, style, n, tol):
+    """the next call of one plugin's history, aimed with its expected status `spec`"""
+    x = r.random()
+    tele = {"walk": 0.78, "mixed": 0.5, "abuse": 0.3}[style]
+    if x < tele:
+        if style == "walk":
+            how = r.choice(["on", "on", "on", "edge", "edge", "inside", "outside", "far", "other", "rough"])
+        else:
+            how = r.choice(["on", "edge", "inside", "outside", "far", "other", "rough", "on"])
+        return ["telemetry", telemetry_pos(r, spec, tol, how)]
+    y = r.random()
+    ln = len(spec.m) if spec.m is not None else n
+    if y < 0.30:
+        i = r.choice([r.randrange(ln), r.randrange(ln), ln - 1, 0, -1, ln, ln + r.randint(1, 3), -r.randint(2, 9), 10 ** 6])
+        return ["setWaypoint", i]
+    if y < 0.62:
+        return ["setReversed", r.random() < 0.5]
+    if y < 0.74:
+        return ["stop"]
+    if y < 0.86:
+        n2 = n if r.random() < 0.5 else r.choice([1, 2, 3, 4, 5])
+        return ["start", make_mission(r, n2, tol)]
+    return ["telemetry", telemetry_pos(r, spec, tol, "on")]
+
+
 def gen_history(seed, max_ops=40):
     r = random.Random(stable_hash("mission", seed))
     loop = r.choice(MODES)
@@ -443,30 +605,50 @@ def gen_history(seed, max_ops=40):
     if r.random() < 0.9:
         push(["start", make_mission(r, n, tol)])
     while len(ops) < n_ops:
-        x = r.random()
-        tele = {"walk": 0.78, "mixed": 0.5, "abuse": 0.3}[style]
-        if x < tele:
-            if style == "walk":
-                how = r.choice(["on", "on", "on", "edge", "edge", "inside", "outside", "far", "other", "rough"])
-            else:
-                how = r.choice(["on", "edge", "inside", "outside", "far", "other", "rough", "on"])
-            push(["telemetry", telemetry_pos(r, spec, tol, how)])
-            continue
-        y = r.random()
-        ln = len(spec.m) if spec.m is not None else n
-        if y < 0.30:
-            i = r.choice([r.randrange(ln), r.randrange(ln), ln - 1, 0, -1, ln, ln + r.randint(1, 3), -r.randint(2, 9), 10 ** 6])
-            push(["setWaypoint", i])
-        elif y < 0.62:
-            push(["setReversed", r.random() < 0.5])
-        elif y < 0.74:
-            push(["stop"])
-        elif y < 0.86:
-            n2 = n if r.random() < 0.5 else r.choice([1, 2, 3, 4, 5])
-            push(["start", make_mission(r, n2, tol)])
-        else:
-            push(["telemetry", telemetry_pos(r, spec, tol, "on")])
+        push(next_op(r, spec, style, n, tol))
     return {"kind": "mission", "loop": loop, "tol": fbits(tol), "speed": fbits(r.choice(SPEEDS)), "ops": ops}
+
+
+def gen_fleet(seed, max_ops=60):
+    """2-4 plugins alive at the same time, each with its own protocol, provider, configuration and mission, their
+    histories (the single-plugin generator's, each aimed at the member's own expected target) interleaved call by
+    call.  Members often fly missions of the same length with different waypoints, sometimes the very same mission
+    (then the same list object when `share` is set), sometimes equal configurations (then the same object)."""
+    r = random.Random(stable_hash("mission-fleet", seed))
+    k = r.choice([2, 2, 2, 3, 3, 4])
+    same_cfg = r.random() < 0.4
+    base = (r.choice(MODES), r.choice(TOLS), r.choice(SPEEDS + [5.0]))
+    n = r.choice([2, 2, 3, 3, 4, 5, 1])
+    members, gens = [], []
+    for i in range(k):
+        loop, tol, speed = base if (same_cfg or r.random() < 0.3) else (r.choice(MODES), r.choice(TOLS), r.choice(SPEEDS))
+        members.append({"loop": loop, "tol": fbits(tol), "speed": fbits(speed)})
+        gens.append({"spec": Spec(loop, fbits(tol)), "tol": tol, "n": n if r.random() < 0.7 else r.choice([1, 2, 3, 4, 5]),
+                     "style": r.choice(["walk", "walk", "walk", "mixed", "abuse"])})
+    ops = []
+
+    def push(i, op):
+        ops.append([i, op])
+        gens[i]["spec"].apply(op)
+
+    first = None
+    for i in r.sample(range(k), k):
+        if r.random() < 0.9:
+            g = gens[i]
+            if first is not None and r.random() < 0.2:
+                push(i, ["start", first])                       # the same mission as another member
+            else:
+                push(i, ["start", make_mission(r, g["n"], g["tol"])])
+                first = first or ops[-1][1][1]
+    n_ops = r.randint(len(ops) + 1, max_ops)
+    burst = r.random() < 0.3                                    # a member makes a few calls in a row
+    i = r.randrange(k)
+    while len(ops) < n_ops:
+        if not (burst and r.random() < 0.6):
+            i = r.randrange(k)
+        g = gens[i]
+        push(i, next_op(r, g["spec"], g["style"], g["n"], g["tol"]))
+    return {"kind": "missionFleet", "members": members, "share": r.random() < 0.5, "ops": ops}
 
 
 def enum_mission(n):
@@ -505,6 +687,36 @@ def enumerate_histories(n, loop, depth, first=None):
         yield {"kind": "mission", "loop": loop, "tol": tol, "speed": fbits(5.0), "ops": ops, "label": "enum"}
 
 
+def enum_fleet_alphabet(n):
+    return [("start",), ("stop",), ("setWaypoint", n - 1), ("setReversed", True), ("setReversed", False), ("tele", "on")]
+
+
+def enumerate_fleets(n, loops, depth):
+    """two plugins in modes `loops`, both started on missions of length n that differ at every index, then every
+    interleaving of exactly `depth` further calls over enum_fleet_alphabet(n) for either member
+    ('tele on' stands on the called member's own expected target)."""
+    tol = fbits(1.0)
+    missions = [enum_mission(n), [P(16 * k, 48, 2) for k in range(n)]]
+    members = [{"loop": lp, "tol": tol, "speed": fbits(5.0)} for lp in loops]
+    alpha = [(i,) + a for i in (0, 1) for a in enum_fleet_alphabet(n)]
+    for combo in itertools.product(alpha, repeat=depth):
+        specs = [Spec(lp, tol) for lp in loops]
+        ops = []
+        for c in ((0, "start"), (1, "start")) + combo:
+            i, spec = c[0], specs[c[0]]
+            if c[1] == "start":
+                op = ["start", missions[i]]
+            elif c[1] == "tele":
+                op = ["telemetry", spec.target() if spec.m is not None else missions[i][0]]
+            elif c[1] == "stop":
+                op = ["stop"]
+            else:
+                op = [c[1], c[2]]
+            ops.append([i, op])
+            spec.apply(op)
+        yield {"kind": "missionFleet", "members": members, "share": False, "ops": ops, "label": "enum"}
+
+
 # ------------------------------------------------------------------------------------------------
 class C16(Check):
     prop = "C16"
@@ -513,7 +725,10 @@ class C16(Check):
                   "(the 'reached' decision is an arbitrary Boolean): the invariant 'active => valid index, not idle, last goto "
                   "= mission[index]; inactive => no waypoint, idle, not reversed' holds after every call; refused calls are "
                   "no-ops and are refused exactly when invalid; a reached waypoint moves the index as the loop mode dictates and "
-                  "issues the goto. The model is tied to the real plugin by running both on generated and enumerated histories.")
+                  "issues the goto. For several plugins alive at once (a list of configuration/state pairs, calls interleaved): a call "
+                  "leaves every other member untouched, every member is in the state its own calls alone lead to, hence the invariant "
+                  "for each member after every interleaved history. The model is tied to the real plugin(s) by running both on "
+                  "generated and enumerated histories.")
     rule = ("histories of 1-40 public calls on the real plugin (mission lengths 1-5 x NO/RESTART/REVERSE; telemetry on target, "
             "exactly on / just inside / just outside the tolerance sphere on a dyadic lattice, on other waypoints, far away; "
             "out-of-bounds set_current_waypoint, set_reversed in every mode, calls before start and after the mission ended); "
@@ -521,22 +736,39 @@ class C16(Check):
             "set_reversed(T|F), telemetry on/off the expected target) for lengths 1-4 x 3 modes: quick = every history of <= 3 calls "
             "and (lengths 1, 2) of <= 4 calls beginning with start_mission; thorough = every history of <= 4 calls and every history of <= 6 calls "
             "beginning with start_mission. "
+            "Fleets: 700 (thorough 8000) histories of <= 60 interleaved calls on 2-4 real plugins alive in the same process, each on its "
+            "own protocol/provider with its own or an equal configuration, missions of mostly equal length and different waypoints "
+            "(sometimes the same mission; in half of the cases equal configurations / missions are the same Python object and the "
+            "constructor's default configuration is used when it equals the wanted one), every member judged on its own calls and "
+            "commands and required not to move on calls made on another member; plus every interleaving of 3 (thorough 4) calls over "
+            "a 6-letter alphabet per member on two started plugins (lengths 2, 3; both in the same mode; thorough also every mixed "
+            "pair of modes). "
             "non-trivial = the history contains a refused request AND (REVERSE: bounces at the last and at the first waypoint; "
-            "RESTART: wraps from the last waypoint to the first; NO: runs to completion and is called again afterwards)")
+            "RESTART: wraps from the last waypoint to the first; NO: runs to completion and is called again afterwards); "
+            "fleet: at least two members step to / are set to a waypoint index >= 1 while another member has a mission in progress "
+            "whose waypoint at that index is a different position")
     assumptions = ["missions are non-empty (start_mission([]) raises IndexError after changing the fields; domain note)",
                    "the caller does not mutate the mission list it handed to start_mission, and no other component sends mobility commands",
                    "set_current_waypoint gets an int and set_reversed a bool",
+                   "fleets: one plugin per protocol instance (two mission plugins on one protocol would send each other's node around, see the plugin's docstring)",
                    "boundary decisions are generated on a dyadic lattice where float arithmetic is exact; off-lattice positions stay clear of the tolerance sphere"]
     modelled = ["gradysim/protocol/plugin/mission_mobility.py (all of MissionMobilityPlugin except start_mission_with_waypoint_file)"]
 
     quick_n = 2500
     thorough_n = 30000
+    quick_fleets = 700
+    thorough_fleets = 8000
 
     def generate(self, seed, tier):
         n = self.quick_n if tier == "quick" else self.thorough_n
         for i in range(n):
             h = gen_history(stable_hash("C16", seed, i))
             h["label"] = f"gen/{seed}/{i}"
+            yield h
+        # several plugins alive at the same time (the nodes of one simulation), calls interleaved
+        for i in range(self.quick_fleets if tier == "quick" else self.thorough_fleets):
+            h = gen_fleet(stable_hash("C16", "fleet", seed, i))
+            h["label"] = f"fleet/{seed}/{i}"
             yield h
         # small scope: every history over the 9-10 letter alphabet of enum_alphabet, per length and mode.
         # quick: all histories of <= 3 calls, and (lengths 1, 2) start_mission followed by every 3 further calls;
@@ -551,20 +783,37 @@ class C16(Check):
                 else:
                     yield from enumerate_histories(ln, loop, 4)
                     yield from enumerate_histories(ln, loop, 6, first=("start",))
+        # two started plugins on different missions, every interleaving of 3 (thorough: 4) further calls
+        for loop in MODES:
+            for ln in (2, 3):
+                yield from enumerate_fleets(ln, (loop, loop), 3 if tier == "quick" else 4)
+        if tier != "quick":
+            for a, b in itertools.permutations(MODES, 2):
+                yield from enumerate_fleets(2, (a, b), 3)
 
     def widen(self, seed, tier):
         for i in range(4000):
             yield gen_history(stable_hash("C16", "widen", seed, i))
+            if i % 4 == 0:
+                yield gen_fleet(stable_hash("C16", "widen-fleet", seed, i))
 
     def run_impl(self, case):
         return run_impl(case)
 
     def model_input(self, case, impl):
+        if "members" in case:
+            return {"kind": "missionFleet", "members": case["members"], "ops": case["ops"]}
         return {"kind": "mission", "loop": case["loop"], "speed": case["speed"], "tol": case["tol"], "ops": case["ops"]}
 
     def compare(self, case, impl, model):
         a = [dict(r, out="crash" if r["out"].startswith("crash") else r["out"]) for r in impl["results"]]
         b = model["results"]
+        fleet = "members" in case
+        for k, r in enumerate(a):
+            if "others" in r:       # the model's members share nothing: a call on one never shows on another
+                o = r["others"][0]
+                return [f"call #{k} {op_text(case['ops'][k][1])} on plugin #{case['ops'][k][0]} changed plugin "
+                        f"#{o['member']} ({o['before']} -> {o['after']}, commands {cmds_text(o['cmds'])}); in the model it cannot"]
         if len(a) != len(b):
             return [f"observation length differs: implementation {len(a)} vs model {len(b)}"]
         if a == b:
@@ -574,7 +823,9 @@ class C16(Check):
         for k, (x, y) in enumerate(zip(a, b)):
             if x != y:
                 keys = [f for f in ("out", "wp", "reversed", "idle", "cmds") if x.get(f) != y.get(f)]
-                return [f"after call #{k} {op_text(case['ops'][k])} ({case['loop']}): " + "; ".join(
+                call = (f"{op_text(case['ops'][k][1])} on plugin #{case['ops'][k][0]} ({case['members'][case['ops'][k][0]]['loop']})"
+                        if fleet else f"{op_text(case['ops'][k])} ({case['loop']})")
+                return [f"after call #{k} {call}: " + "; ".join(
                     f"{f}: implementation {json.dumps(x.get(f))[:160]} vs model {json.dumps(y.get(f))[:160]}" for f in keys)]
         return []
 
@@ -584,6 +835,10 @@ class C16(Check):
     def nontrivial(self, case, impl):
         if not in_domain(case):
             return False
+        if "members" in case:
+            # at least two members stepped to / were set to an index >= 1 while another member had a mission
+            # in progress with a different waypoint at that index
+            return fleet_events(case, impl)["concurrent_members"] >= 2
         ev = events(case, impl)
         if not ev["refused"]:
             return False
@@ -594,9 +849,15 @@ class C16(Check):
         return ev["finished"] >= 1 and ev["late"] >= 1
 
     def key(self, case, impl):
+        if "members" in case:
+            return json.dumps([case["members"], case["ops"]])
         return case["loop"] + case["tol"] + json.dumps(case["ops"])
 
     def sample(self, case, impl):
+        if "members" in case:
+            return {"label": case.get("label"), "members": [[m["loop"], bitsf(m["tol"])] for m in case["members"]],
+                    "calls": [f"#{who}: {op_text(op)}" for who, op in case["ops"][:12]],
+                    "observed": [[r["out"], r["wp"], r["reversed"], r["idle"], cmds_text(r["cmds"])] for r in impl["results"][:12]]}
         return {"label": case.get("label"), "loop": case["loop"], "tolerance": bitsf(case["tol"]),
                 "calls": [op_text(op) for op in case["ops"][:12]],
                 "observed": [[r["out"], r["wp"], r["reversed"], r["idle"], cmds_text(r["cmds"])] for r in impl["results"][:12]]}
@@ -606,9 +867,20 @@ class C16(Check):
             acc[k] = acc.get(k, 0) + d
         inc("histories")
         inc("histories_" + ("enumerated" if case.get("label") == "enum" else "generated_or_corpus"))
-        inc("mode_" + case["loop"])
+        if "members" in case:
+            inc("fleet_histories")
+            inc(f"fleet_of_{len(case['members'])}")
+            if case.get("share"):
+                inc("fleet_shared_objects")
+            for m in case["members"]:
+                inc("mode_" + m["loop"])
+            for k, v in fleet_events(case, impl).items():
+                if v:
+                    inc("fleet_" + k, v)
+        else:
+            inc("mode_" + case["loop"])
         inc("calls", len(case["ops"]))
-        for op, r in zip(case["ops"], impl["results"]):
+        for op, r in zip(plain_ops(case), impl["results"]):
             inc("call_" + op[0])
             inc("result_" + r["out"])
             if op[0] == "start":
@@ -618,6 +890,7 @@ class C16(Check):
                 inc("event_" + k, v)
 
     def shrink(self, case, still_fails):
+        fleet = "members" in case
         best = case
         changed = True
         while changed:
@@ -632,16 +905,31 @@ class C16(Check):
         changed = True
         while changed:
             changed = False
-            for i, op in enumerate(best["ops"]):
+            for i, o in enumerate(best["ops"]):
+                op = o[1] if fleet else o
                 if op[0] == "start" and len(op[1]) > 1:
+                    short = ["start", op[1][:-1]]
                     cand = dict(best)
-                    cand["ops"] = best["ops"][:i] + [["start", op[1][:-1]]] + best["ops"][i + 1:]
+                    cand["ops"] = best["ops"][:i] + [[o[0], short] if fleet else short] + best["ops"][i + 1:]
                     if still_fails(cand):
                         best = cand
                         changed = True
                         break
         best = dict(best)
-        best["readable"] = {"loop": best["loop"], "tolerance": bitsf(best["tol"]), "calls": [op_text(o) for o in best["ops"]]}
+        if fleet:
+            # members that are never called: drop them while it still fails (renumbering the others)
+            for j in range(len(best["members"]) - 1, -1, -1):
+                if len(best["members"]) > 1 and all(o[0] != j for o in best["ops"]):
+                    cand = dict(best)
+                    cand["members"] = best["members"][:j] + best["members"][j + 1:]
+                    cand["ops"] = [[w - 1 if w > j else w, op] for w, op in best["ops"]]
+                    if still_fails(cand):
+                        best = cand
+            best["readable"] = {"plugins": [{"loop": m["loop"], "tolerance": bitsf(m["tol"])} for m in best["members"]],
+                                "shared_config_and_mission_objects": bool(best.get("share")),
+                                "calls": [f"plugin #{w}: {op_text(o)}" for w, o in best["ops"]]}
+        else:
+            best["readable"] = {"loop": best["loop"], "tolerance": bitsf(best["tol"]), "calls": [op_text(o) for o in best["ops"]]}
         return best
 
 
